@@ -3,6 +3,7 @@ package main
 import (
 	"bytes"
 	"fmt"
+	"strings"
 
 	"github.com/libsv/go-bt/v2"
 	"github.com/libsv/go-bt/v2/bscript"
@@ -221,12 +222,21 @@ func c08JudgeSig(c *mon.Ctx, cs *c06Case) {
 	}
 	c.Eval(1)
 	tx := cs.Tx.BuildShared()
+	// a transaction still being assembled: behind the inputs sits a placeholder whose outpoint is
+	// not set yet (whatever Execute makes of it - an error is fine - the object stays as it is)
+	placeholder := func(t *bt.Tx) {
+		if strings.HasSuffix(cs.Class, "+placeholder-input") {
+			t.Inputs = append(t.Inputs, &bt.Input{PreviousTxOutIndex: 7, SequenceNumber: 0xffffffff, UnlockingScript: bscript.NewFromBytes([]byte{0x51})})
+		}
+	}
+	placeholder(tx)
 	unlock0 := append([]byte{}, cs.Tx.Ins[cs.Idx].Unlock...)
 	lockBuf := append([]byte{}, cs.Lock...)
 	prev := &bt.Output{Satoshis: cs.Sats, LockingScript: bscript.NewFromBytes(lockBuf)}
 	before := tx.Bytes()
 	extUntouched := tx.ExtendedBytes()
 	exp := cs.Tx.Build()
+	placeholder(exp)
 	exp.Inputs[cs.Idx].PreviousTxSatoshis = cs.Sats
 	exp.Inputs[cs.Idx].PreviousTxScript = bscript.NewFromBytes(append([]byte{}, cs.Lock...))
 	extRecorded := exp.ExtendedBytes()
@@ -498,9 +508,12 @@ func init() {
 			for vi, v := range variants {
 				for _, ht := range []byte{0x01, 0x41, 0x03, 0xc1} {
 					for _, fl := range []uint32{0, uint32(scriptflag.UTXOAfterGenesis), uint32(scriptflag.VerifyDERSignatures), uint32(scriptflag.VerifyNullFail), uint32(scriptflag.EnableSighashForkID | scriptflag.UTXOAfterGenesis)} {
-						for shape := 0; shape < 3; shape++ {
+						for shape := 0; shape < 4; shape++ {
 							n++
 							if !c.Case(n) {
+								continue
+							}
+							if shape == 3 && vi > 1 {
 								continue
 							}
 							r := c.Rand(n)
@@ -510,8 +523,11 @@ func init() {
 							cs.Idx = r.Intn(len(cs.Tx.Ins))
 							u := gen.Push(sig)
 							switch shape {
-							case 0:
+							case 0, 3:
 								cs.Lock = append(gen.Push(c07KeyG), 0xac, 0x91)
+								if shape == 3 {
+									cs.Class += "+placeholder-input"
+								}
 							case 1: // the signature is DUPed first: the twin must keep its bytes
 								cs.Lock = append(append([]byte{0x76}, gen.Push(c07KeyG)...), 0xac, 0x75, 0x75, 0x51)
 							default: // 1-of-2 multisig
